@@ -1,1 +1,421 @@
-int main(){return 0;}
+// Worker pool / parallel block build stress with hook event recorder, seeded delay injection and (plain flavor only) a
+// pthread_cond_wait interposer that widens the window between a worker's predicate evaluation and its blocking.
+//   pool_driver --mode pool   --lifecycles N --seed S [--maxworkers W] [--maxtasks T] [--delay-us D] [--window 0|1] --out FILE
+//   pool_driver --mode blocks --input FILE --schedules N --seed S [--delay-us D] --out FILE
+// Deadlocks are decided by the parent from scheduler state (/proc), never by a timer in here: this process has no helper threads.
+#include "dict_ops.h"
+#include "parallel/Worker.hpp"
+#include <atomic>
+#include <dlfcn.h>
+#include <fstream>
+#include <pthread.h>
+#include <time.h>
+
+#if defined(__SANITIZE_THREAD__)
+#define UNDER_TSAN 1
+#else
+#define UNDER_TSAN 0
+#endif
+#if defined(__SANITIZE_ADDRESS__)
+#define UNDER_ASAN 1
+#else
+#define UNDER_ASAN 0
+#endif
+
+// ---------------------------------------------------------------------------------------------- event recorder
+struct Ev {
+  int id;
+  long a, b;
+  unsigned long tid;
+};
+static const size_t EVCAP = 1 << 18;
+static Ev *g_ev = NULL;
+static std::atomic<size_t> g_nev{0};
+static std::atomic<uint64_t> g_plan_seed{1};
+static std::atomic<long> g_delay_us{0};
+static std::atomic<int> g_block_mode{0};   // 0 none, 1 reversed, 2 rotated, 3 random, 4 producer-slow
+static std::atomic<long> g_nblocks_hint{0};
+static std::atomic<int> g_in_window{0};
+static std::atomic<long> g_window_hits{0}, g_stop_in_window{0}, g_add_in_window{0}, g_add_all_in_window{0}, g_windows{0};
+static std::atomic<int> g_window_on{0};
+static std::atomic<int> g_nworkers_now{0};
+
+static inline uint64_t mix(uint64_t a, uint64_t b) {
+  uint64_t z = a + 0x9E3779B97F4A7C15ull * (b + 1);
+  z = (z ^ (z >> 30)) * 0xBF58476D1CE4E5B9ull;
+  z = (z ^ (z >> 27)) * 0x94D049BB133111EBull;
+  return z ^ (z >> 31);
+}
+static inline void sleep_us(long us) {
+  if (us <= 0) return;
+  struct timespec ts = {us / 1000000, (us % 1000000) * 1000};
+  nanosleep(&ts, NULL);
+}
+
+static void on_point(int id, long a, long b) {
+  size_t k = g_nev.fetch_add(1, std::memory_order_relaxed);
+  if (k < EVCAP) g_ev[k] = {id, a, b, (unsigned long)pthread_self()};
+  long D = g_delay_us.load(std::memory_order_relaxed);
+  uint64_t seed = g_plan_seed.load(std::memory_order_relaxed);
+  using namespace libcsd_verif;
+  // notifications that land while a worker sits between its predicate and its blocking
+  if (id == PT_POOL_ENQUEUED || id == PT_POOL_STOP_SET) {
+    // give sleeping-to-be workers a chance to be inside the window when the notification is sent
+    if (g_window_on.load() && D > 0 && (mix(seed, k) % 4 == 0 || id == PT_POOL_STOP_SET)) {
+      for (int spin = 0; spin < 60 && g_in_window.load() == 0; spin++) sleep_us(10);
+    }
+    int w = g_in_window.load();
+    if (w > 0) {
+      g_window_hits++;
+      if (id == PT_POOL_STOP_SET) g_stop_in_window++; else g_add_in_window++;
+      if (id == PT_POOL_ENQUEUED && w >= g_nworkers_now.load() && w > 0) g_add_all_in_window++;
+    }
+  }
+  if (D <= 0) return;
+  int bm = g_block_mode.load(std::memory_order_relaxed);
+  if (id == PT_BLOCK_BUILT && bm) {
+    long nb = std::max<long>(1, g_nblocks_hint.load());
+    long unit = std::max<long>(50, D);
+    long d = 0;
+    if (bm == 1) d = (nb - 1 - std::min(a, nb - 1)) * unit;            // reversed completion order
+    else if (bm == 2) d = ((a + nb / 2) % nb) * unit;                    // rotated
+    else if (bm == 3) d = (long)(mix(seed, (uint64_t)a) % (uint64_t)(nb * unit + 1));
+    sleep_us(std::min<long>(d, 200000));
+    return;
+  }
+  if (id == PT_BLOCK_QUEUED && bm == 4) { sleep_us((long)(mix(seed, (uint64_t)a + 77) % (uint64_t)(4 * D + 1))); return; }
+  // generic seeded jitter at every point (about one point in three sleeps)
+  uint64_t h = mix(seed, ((uint64_t)id << 32) ^ (uint64_t)a ^ (k << 8));
+  if (h % 3 == 0) sleep_us((long)((h >> 8) % (uint64_t)(D + 1)));
+}
+
+#if !UNDER_TSAN
+// Interposed: a sleep here is a preemption after the wait predicate was found false and before the thread blocks (the mutex is
+// still held, exactly as it would be). Definitions in the executable take precedence over libpthread's for libstdc++ too.
+extern "C" int pthread_cond_wait(pthread_cond_t *c, pthread_mutex_t *m) {
+  typedef int (*fn)(pthread_cond_t *, pthread_mutex_t *);
+  static fn real = (fn)dlsym(RTLD_NEXT, "pthread_cond_wait");
+  if (g_window_on.load(std::memory_order_relaxed)) {
+    long D = g_delay_us.load(std::memory_order_relaxed);
+    if (D > 0) {
+      g_in_window++;
+      g_windows++;
+      uint64_t h = mix(g_plan_seed.load(), (uint64_t)pthread_self() ^ (uint64_t)g_windows.load());
+      sleep_us((long)(h % (uint64_t)(D + 1)));
+      g_in_window--;
+    }
+  }
+  return real(c, m);
+}
+#endif
+
+// ---------------------------------------------------------------------------------------------- pool lifecycles
+struct TaskState {
+  std::atomic<int> runs{0};
+  std::atomic<int> inflight{0};
+  std::atomic<int> overlap{0};
+};
+
+static long run_pool_lifecycle(uint64_t seed, int workers, int tasks, int protocol, long lifecycle_no) {
+  using namespace libcsd_verif;
+  g_nev.store(0);
+  g_plan_seed.store(seed);
+  g_nworkers_now.store(workers);
+  std::vector<TaskState> ts(tasks);
+  std::mutex m;
+  std::condition_variable cv;
+  int done = 0;
+  {
+    char t[160];
+    snprintf(t, sizeof t, "lifecycle=%ld workers=%d tasks=%d protocol=%c seed=%llu", lifecycle_no, workers, tasks, "abcd"[protocol], (unsigned long long)seed);
+    obs::crumb("C10", "pool", t);
+    // the parent reads the current lifecycle from the output file if it has to kill a deadlocked process
+    obs::line(std::string("L\t") + t);
+    obs::flush();
+  }
+  {
+    WorkerPool pool(workers);
+    WorkerPool *pp = &pool;
+    auto body = [&ts](int i) {
+      TaskState &s = ts[i];
+      if (s.inflight.fetch_add(1) != 0) s.overlap++;
+      s.runs++;
+      volatile unsigned x = 0;
+      for (int k = 0; k < 50 + (i * 37) % 400; k++) x += k;
+      s.inflight--;
+    };
+    Rng r(seed);
+    if (protocol == 0) { // add all, stop, wait: tasks still queued at stop must run
+      for (int i = 0; i < tasks; i++) pool.add_task([i, &body]() { body(i); });
+      pool.stop_all_workers();
+      pool.wait_workers();
+    } else if (protocol == 1) { // the block constructor's protocol
+      for (int i = 0; i < tasks; i++)
+        pool.add_task([i, &body, &m, &cv, &done]() {
+          body(i);
+          { std::lock_guard<std::mutex> lg(m); done++; }
+          cv.notify_all();
+        });
+      {
+        std::unique_lock<std::mutex> ul(m);
+        cv.wait(ul, [&]() { return done == tasks; });
+      }
+      pool.stop_all_workers();
+      pool.wait_workers();
+    } else if (protocol == 2) { // a task stops the pool (the repository test's protocol); every task was added before
+      if (tasks == 0) {
+        pool.stop_all_workers();
+      } else {
+        int stopper = (int)r.below(tasks);
+        std::atomic<int> all_added{0};   // only tasks handed over BEFORE the stop must run: the stopper waits until all are queued
+        std::atomic<int> *pa = &all_added;
+        for (int i = 0; i < tasks; i++) {
+          if (i == stopper) pool.add_task([i, &body, pp, pa]() { body(i); while (!pa->load()) sched_yield(); pp->stop_all_workers(); });
+          else pool.add_task([i, &body]() { body(i); });
+        }
+        all_added.store(1);
+        pool.wait_workers();
+        goto accounted;
+      }
+      pool.wait_workers();
+    accounted:;
+    } else { // tasks trickle in while workers go back to sleep in between
+      for (int i = 0; i < tasks; i++) {
+        sleep_us((long)r.below(300));
+        pool.add_task([i, &body]() { body(i); });
+      }
+      sleep_us((long)r.below(300));
+      pool.stop_all_workers();
+      pool.wait_workers();
+    }
+  }
+  // ---- exactly-once / no self-concurrency
+  long bad = 0;
+  for (int i = 0; i < tasks; i++) {
+    obs::count("eval.task_accounting");
+    int runs = ts[i].runs.load();
+    if (runs != 1) {
+      bad++;
+      obs::violation("C10", "pool", runs == 0 ? "task-lost" : "task-ran-twice", std::string("protocol_") + "abcd"[protocol],
+                     "task " + std::to_string(i) + " ran " + std::to_string(runs) + " times; " + obs::c_detail);
+    }
+    if (ts[i].overlap.load()) {
+      bad++;
+      obs::violation("C10", "pool", "self-concurrent", std::string("protocol_") + "abcd"[protocol], "task " + std::to_string(i) + " overlapped with itself; " + obs::c_detail);
+    }
+  }
+  // ---- offline check of the hook event log
+  size_t n = std::min(g_nev.load(), EVCAP);
+  long enq = 0, pop = 0, beg = 0, end = 0, wexit = 0;
+  std::map<long, int> exited;
+  for (size_t k = 0; k < n; k++) {
+    const Ev &e = g_ev[k];
+    if (e.id == PT_POOL_ENQUEUED) enq++;
+    else if (e.id == PT_WORKER_POP) { pop++; if (exited.count(e.a)) { bad++; obs::violation("C10", "pool", "pop-after-exit", "events", "worker " + std::to_string(e.a) + " popped a task after its exit event; " + obs::c_detail); } }
+    else if (e.id == PT_WORKER_TASK_BEGIN) beg++;
+    else if (e.id == PT_WORKER_TASK_END) end++;
+    else if (e.id == PT_WORKER_EXIT) { wexit++; exited[e.a] = 1; }
+  }
+  obs::count("eval.event_log_checks", 4);
+  if (n < EVCAP && (enq != tasks || pop != tasks || beg != tasks || end != tasks || wexit != workers)) {
+    bad++;
+    obs::violation("C10", "pool", "event-accounting", std::string("protocol_") + "abcd"[protocol],
+                   "enqueued=" + std::to_string(enq) + " popped=" + std::to_string(pop) + " begun=" + std::to_string(beg) + " ended=" + std::to_string(end) + " worker_exits=" + std::to_string(wexit) +
+                       " expected tasks=" + std::to_string(tasks) + " workers=" + std::to_string(workers) + "; " + obs::c_detail);
+  }
+  obs::count("events_recorded", (long)n);
+  return bad;
+}
+
+static int mode_pool(long lifecycles, uint64_t seed, int maxworkers, int maxtasks, long delay_us, int window) {
+  g_delay_us.store(delay_us);
+  g_window_on.store(window && !UNDER_TSAN);
+  Rng r(seed);
+  std::map<std::string, long> shapes;
+  for (long l = 0; l < lifecycles; l++) {
+    int workers = 1 + (int)r.below(maxworkers);
+    int tasks = (int)r.below(maxtasks + 1);
+    if (r.chance(15)) tasks = 0;
+    if (r.chance(15)) workers = 1;
+    int protocol = (int)r.below(4);
+    uint64_t ls = mix(seed, (uint64_t)l);
+    run_pool_lifecycle(ls, workers, tasks, protocol, l);
+    obs::count("eval.lifecycle");
+    obs::count(std::string("cls.protocol_") + "abcd"[protocol]);
+    if (tasks == 0) obs::count("cls.tasks_0");
+    if (workers == 1) obs::count("cls.workers_1");
+    if (tasks > workers) obs::count("cls.tasks_gt_workers");
+    if (l < 3) {
+      char t[160];
+      snprintf(t, sizeof t, "pool lifecycle: %d workers, %d tasks, protocol %c, delay<=%ldus, window interposer %s", workers, tasks, "abcd"[protocol], delay_us, g_window_on.load() ? "on" : "off");
+      obs::line(std::string("X\t") + t);
+    }
+  }
+  obs::count("cls.window_hits", g_window_hits.load());
+  obs::count("cls.stop_in_window", g_stop_in_window.load());
+  obs::count("cls.add_in_window", g_add_in_window.load());
+  obs::count("cls.add_in_window_all_workers", g_add_all_in_window.load());
+  obs::count("windows_opened", g_windows.load());
+  return 0;
+}
+
+// ---------------------------------------------------------------------------------------------- block builds
+static int mode_blocks(const std::string &input, long schedules, uint64_t seed, long delay_us, long only_threads) {
+  using namespace libcsd_verif;
+  std::vector<std::string> strs;
+  {
+    std::ifstream in(input, std::ios::binary);
+    std::string all((std::istreambuf_iterator<char>(in)), std::istreambuf_iterator<char>());
+    size_t p = 0;
+    while (p < all.size()) {
+      size_t q = all.find('\0', p);
+      if (q == std::string::npos) q = all.size();
+      strs.push_back(all.substr(p, q - p));
+      p = q + 1;
+    }
+  }
+  Model m;
+  std::string why = m.init(strs);
+  if (!why.empty()) { obs::line("E\tinvalid-input\t" + why); obs::flush(); return 2; }
+  size_t textlen = 0, minlen = (size_t)-1;
+  for (auto &s : m.S) { textlen += s.size() + 1; minlen = std::min(minlen, s.size()); }
+  Rng r(seed);
+  std::vector<unsigned long> cuts = {1, minlen + 1, std::max<size_t>(1, textlen / 2), std::max<size_t>(1, textlen / 3), std::max<size_t>(1, textlen / 7), std::max<size_t>(1, textlen / 16), textlen + 10};
+  std::set<uint64_t> orders, assignments;
+  long maxconc_seen = 0;
+  for (long s = 0; s < schedules; s++) {
+    unsigned long cut = cuts[r.below(cuts.size())];
+    int overhead = (int)std::vector<int>{0, 10, 25, 100}[r.below(4)];
+    int threads = only_threads > 0 ? (int)only_threads : (int)std::vector<int>{2, 3, 4, 8, 16}[r.below(5)];
+    int bm = (int)r.below(5);
+    Params P;
+    P.p1 = overhead; P.p2 = (long)cut; P.p3 = 1;
+    // reference: one worker, no delays
+    g_delay_us.store(0);
+    g_block_mode.store(0);
+    g_nev.store(0);
+    obs::crumb("C09,C11", "blocks", "reference build cut=" + std::to_string(cut));
+    StringDictionary *ref = build_dict(K_BLOCKS, P, m);
+    std::string refimg = save_image(ref);
+    size_t nref = std::min(g_nev.load(), EVCAP);
+    long nblocks = 0;
+    for (size_t k = 0; k < nref; k++) if (g_ev[k].id == PT_BLOCK_RETURN) nblocks = g_ev[k].a;
+    delete ref;
+    // the schedule under test
+    P.p3 = threads;
+    std::string sched;
+    uint64_t ps = mix(seed, (uint64_t)s);
+    g_plan_seed.store(ps);
+    g_nblocks_hint.store(nblocks);
+    g_block_mode.store(bm);
+    g_delay_us.store(delay_us);
+    g_nev.store(0);
+    {
+      char t[200];
+      snprintf(t, sizeof t, "schedule=%ld n=%zu cut=%lu overhead=%d threads=%d blocks=%ld delay_mode=%d seed=%llu", s, m.n, cut, overhead, threads, nblocks, bm, (unsigned long long)ps);
+      obs::crumb("C09,C11", "blocks", t);
+      obs::line(std::string("L\t") + t);
+      obs::flush();
+      sched = t;
+    }
+    StringDictionary *d = build_dict(K_BLOCKS, P, m);
+    size_t n = std::min(g_nev.load(), EVCAP);
+    g_delay_us.store(0);
+    g_block_mode.store(0);
+    obs::count("eval.block_build");
+    if (nblocks >= 2) obs::count("cls.blocks_ge2");
+    if (nblocks == 1) obs::count("cls.blocks_1");
+    if ((size_t)nblocks == m.n) obs::count("cls.blocks_eq_n");
+    // ---- event log: exactly one queued -> begin -> built -> stored chain per block, everything stored before return
+    std::vector<int> q(nblocks + 1, 0), b(nblocks + 1, 0), bu(nblocks + 1, 0), st(nblocks + 1, 0);
+    long ret_at = -1, wait_at = -1, parts_done = -1, parts_size = -1;
+    uint64_t order = FNV0, assign = FNV0;
+    std::map<unsigned long, int> tids;
+    long inflight = 0, maxconc = 0;
+    bool in_order = true, reversed = true;
+    long last_stored = -1;
+    bool ok = true;
+    for (size_t k = 0; k < n; k++) {
+      const Ev &e = g_ev[k];
+      if (e.id >= PT_BLOCK_QUEUED && e.id <= PT_BLOCK_STORED && (e.a < 0 || e.a >= nblocks)) { ok = false; continue; }
+      if (e.id == PT_BLOCK_QUEUED) q[e.a]++;
+      else if (e.id == PT_BLOCK_BEGIN) { b[e.a]++; inflight++; maxconc = std::max(maxconc, inflight); if (!tids.count(e.tid)) { int z = (int)tids.size(); tids[e.tid] = z; } long w = tids[e.tid]; assign = fnv1a(assign, &e.a, sizeof e.a); assign = fnv1a(assign, &w, sizeof w); }
+      else if (e.id == PT_BLOCK_BUILT) { bu[e.a]++; inflight--; }
+      else if (e.id == PT_BLOCK_STORED) {
+        st[e.a]++;
+        order = fnv1a(order, &e.a, sizeof e.a);
+        if (e.a < last_stored) in_order = false;
+        if (e.a > last_stored && last_stored >= 0) reversed = false;
+        last_stored = e.a;
+        if (ret_at >= 0) ok = false;
+      } else if (e.id == PT_BLOCK_WAIT_DONE) { wait_at = (long)k; parts_done = e.a; parts_size = e.b; }
+      else if (e.id == PT_BLOCK_RETURN) ret_at = (long)k;
+    }
+    obs::count("eval.block_event_chain", nblocks);
+    for (long i = 0; i < nblocks; i++)
+      if (q[i] != 1 || b[i] != 1 || bu[i] != 1 || st[i] != 1) ok = false;
+    if (n < EVCAP && (!ok || ret_at < 0 || wait_at < 0 || parts_done != parts_size || parts_size != nblocks))
+      obs::violation("C09", "blocks", "incomplete-or-duplicated-block", "events", std::string("event chain broken: ") + sched + " parts_done=" + std::to_string(parts_done) + " parts=" + std::to_string(parts_size));
+    orders.insert(order);
+    assignments.insert(assign);
+    maxconc_seen = std::max(maxconc_seen, maxconc);
+    if (nblocks >= 2 && !in_order) obs::count("cls.order_not_input_order");
+    if (nblocks >= 3 && reversed) obs::count("cls.order_reversed");
+    obs::count("cls.threads_seen_max", 0);
+    // ---- boundary observation: image identical to the single-threaded one
+    obs::crumb("C09", "blocks", std::string("save ") + sched);
+    std::string img = save_image(d);
+    obs::count("eval.image_comparison");
+    if (img != refimg) {
+      size_t i = 0, mm = std::min(img.size(), refimg.size());
+      while (i < mm && img[i] == refimg[i]) i++;
+      obs::violation("C09", "blocks", "image-differs", "threads", std::string("image differs from the single-threaded build at byte ") + std::to_string(i) + " (len " + std::to_string(img.size()) + " vs " + std::to_string(refimg.size()) + "): " + sched);
+    }
+    // ---- answers: every string, in input order
+    Ctx c;
+    c.kind = K_BLOCKS; c.P = P; c.m = m; c.d = d; c.state = "fresh"; c.rng = Rng(ps); c.ops = {"locate", "extract"}; c.samples_left = 0;
+    long v0 = obs::n_viol;
+    op_member(c);
+    if (obs::n_viol != v0) obs::violation("C09", "blocks", "wrong-answer", "threads", std::string("locate/extract wrong after a parallel build: ") + sched);
+    if (s < 3) obs::line(std::string("X\tblock build ") + sched + " -> completion order hash " + std::to_string(order) + ", max concurrent builders " + std::to_string(maxconc) + ", image " + std::to_string(img.size()) + " bytes == reference: " + (img == refimg ? "yes" : "NO"));
+    obs::crumb("C07", "destroy", "delete blocks dictionary");
+    delete d;
+  }
+  obs::count("distinct_completion_orders", (long)orders.size());
+  obs::count("distinct_task_worker_assignments", (long)assignments.size());
+  obs::count("max_concurrent_builders", maxconc_seen);
+  for (uint64_t o : orders) obs::line("O\t" + std::to_string(o));
+  return 0;
+}
+
+int main(int argc, char **argv) {
+  std::string mode = "pool", out, input;
+  long lifecycles = 100, schedules = 10, delay_us = 0, only_threads = 0;
+  int maxworkers = 8, maxtasks = 64, window = 1;
+  uint64_t seed = 1;
+  for (int i = 1; i < argc; i++) {
+    std::string a = argv[i];
+    auto val = [&]() { return std::string(i + 1 < argc ? argv[++i] : ""); };
+    if (a == "--mode") mode = val();
+    else if (a == "--out") out = val();
+    else if (a == "--input") input = val();
+    else if (a == "--lifecycles") lifecycles = atol(val().c_str());
+    else if (a == "--schedules") schedules = atol(val().c_str());
+    else if (a == "--delay-us") delay_us = atol(val().c_str());
+    else if (a == "--maxworkers") maxworkers = atoi(val().c_str());
+    else if (a == "--maxtasks") maxtasks = atoi(val().c_str());
+    else if (a == "--window") window = atoi(val().c_str());
+    else if (a == "--threads") only_threads = atol(val().c_str());
+    else if (a == "--seed") seed = strtoull(val().c_str(), NULL, 10);
+    else { fprintf(stderr, "unknown arg %s\n", a.c_str()); return 2; }
+  }
+  obs::install(out.empty() ? NULL : out.c_str(), !(UNDER_ASAN || UNDER_TSAN));
+  g_ev = new Ev[EVCAP];
+  libcsd_verif::point_ref().store(on_point, std::memory_order_release);
+  int rc = mode == "pool" ? mode_pool(lifecycles, seed, maxworkers, maxtasks, delay_us, window) : mode_blocks(input, schedules, seed, delay_us, only_threads);
+  obs::count("violations", obs::n_viol);
+  obs::dump_counters();
+  obs::line("D\tok");
+  obs::flush();
+  _exit(rc);
+}
